@@ -200,9 +200,12 @@ class TreeAnnotator(transformer.Base):
 
   def visit_Expr(self, node):
     node = self.generic_visit(node)
-    cfg_node = self.current_analyzer.graph.index[node]
-    anno.setanno(node, anno.Static.LIVE_VARS_OUT,
-                 frozenset(self.current_analyzer.out[cfg_node]))
+    # Expression statements in the body of a local class (a docstring, for
+    # instance) are not part of the function's CFG.
+    if node in self.current_analyzer.graph.index:
+      cfg_node = self.current_analyzer.graph.index[node]
+      anno.setanno(node, anno.Static.LIVE_VARS_OUT,
+                   frozenset(self.current_analyzer.out[cfg_node]))
     return node
 
 
